@@ -483,9 +483,16 @@ fn main() {
         // every second calls-only program runs on a PLAIN Result function with an IMPURE body: thread 0's calls succeed,
         // the other threads' calls fail for the same arguments (C09 under concurrency: an Err is never stored and never
         // disturbs a stored Ok; once an Ok-storing call has returned, later calls are served)
-        let result_hot = calls_only && (pi / 4) % 2 == 1;
-        let plain_hot = calls_only && !result_hot && variant % 2 == 0;
-        let hot_pool: Vec<&md::Spec> = if result_hot {
+        let cvar = (pi / 4 + seed as usize) % 3;
+        let result_hot = calls_only && cvar == 1;
+        // every third calls-only program runs on a cache with a TTL (and an entry limit) whose entries are all EXPIRED when
+        // the threads start: expired-lookup paths (lookup sees the expired entry, drops its read lock, takes the queue mutex
+        // and the write lock) race with each other and with the re-stores of the same keys
+        let ttl_hot = calls_only && cvar == 2;
+        let plain_hot = calls_only && cvar == 0 && variant % 2 == 0;
+        let hot_pool: Vec<&md::Spec> = if ttl_hot {
+            usable.iter().filter(|s| s.ttl.is_some() && s.limit.map(|l| l <= 3).unwrap_or(false) && s.max_mem.is_none() && !s.is_result && s.is_async == (variant % 2 == 1)).collect()
+        } else if result_hot {
             usable.iter().filter(|s| s.limit.is_none() && s.max_mem.is_none() && s.ttl.is_none() && s.is_result && s.is_async == (variant % 2 == 1)).collect()
         } else if plain_hot {
             usable.iter().filter(|s| s.limit.is_none() && s.max_mem.is_none() && s.ttl.is_none() && !s.is_result && s.is_async == ((variant / 2) % 2 == 1)).collect()
@@ -552,7 +559,7 @@ fn main() {
             reset_all(&fns);
             // every other program with a TTL'd hot cache starts from EXPIRED entries (stored, then aged past the
             // ttl through the verif hook), so that the expired-lookup path races with stores and other lookups
-            if pi % 2 == 0 {
+            if pi % 2 == 0 || ttl_hot {
                 if let Some(ttl) = fns[0].ttl {
                     for j in 0..3 {
                         let (n, ok) = det_val(fns[0].idx, j);
